@@ -32,9 +32,10 @@ def ws_init():
     if not os.path.exists(lock):
         shutil.copy(os.path.join(REPO, "Cargo.lock"), lock)
     # the support crate is copied into the workspace (members must live below the root)
-    dst = os.path.join(WS, "vsupport")
-    for rel in ("Cargo.toml", "src/lib.rs", "src/probe.rs", "src/bin/strenv.rs"):
-        a, b = os.path.join(SUPPORT, rel), os.path.join(dst, rel)
+    copies = [(SUPPORT, os.path.join(WS, "vsupport"), rel) for rel in ("Cargo.toml", "src/lib.rs", "src/probe.rs", "src/bin/strenv.rs")]
+    copies += [(os.path.join(os.path.dirname(SUPPORT), "analyser"), os.path.join(WS, "vanalyse"), rel) for rel in ("Cargo.toml", "src/main.rs")]
+    for (srcdir, dst, rel) in copies:
+        a, b = os.path.join(srcdir, rel), os.path.join(dst, rel)
         if not os.path.exists(a):
             continue
         new = open(a).read()
@@ -179,11 +180,11 @@ class Crate:
         return p
 
 
-def build_tool(bin_name):
-    """build a helper binary of the support crate; returns its path."""
+def build_tool(bin_name, package="vsupport"):
+    """build a helper binary of the support / analyser crate; returns its path."""
     ws_init()
     _ws_manifest()
-    p = subprocess.run(["cargo", "build", "--offline", "-p", "vsupport", "--bin", bin_name, "--message-format=json"],
+    p = subprocess.run(["cargo", "build", "--offline", "-p", package, "--bin", bin_name, "--message-format=json"],
                        cwd=WS, env={**os.environ, **CARGO_ENV}, stdout=subprocess.PIPE, stderr=subprocess.PIPE, text=True)
     if p.returncode != 0:
         raise ToolError("cannot build tool %s:\n%s" % (bin_name, p.stderr[-3000:]))
